@@ -132,18 +132,20 @@ def worker_init() -> None:
             db = odxtools.load_pdx_file(p)
             for dl in db.diag_layers:
                 layers[f"{fname.split('.')[0]}:{dl.short_name}"] = dl
-    from ..zoo.layers import build_zoo_layer
+    from ..zoo.layers import MATRIX_KINDS, build_matrix_layer, build_zoo_layer
     zoo_truth: Dict[str, Dict[str, Any]] = {}
     for z in range(N_ZOO):
         layer, truth, used = build_zoo_layer(z)
         layers[f"zoo:{z}"] = layer
         zoo_truth[f"zoo:{z}"] = truth
+    for kind in MATRIX_KINDS:
+        layers[f"zoo:m_{kind}"] = build_matrix_layer(kind)
     STATE["layers"] = layers
     STATE["layer_names"] = sorted(layers)
     STATE["zoo_truth"] = zoo_truth
     STATE["budget"] = InstrBudget(worker.pkg_dir())
     STATE["budget"].install()
-    build_corpus()
+    build_corpus(budget=STATE["budget"])
 
 
 def coding_objects(layer) -> List[Tuple[Any, Any, str]]:
@@ -158,7 +160,7 @@ def coding_objects(layer) -> List[Tuple[Any, Any, str]]:
     return out
 
 
-def build_corpus(ascii_tails: bool = False) -> None:
+def build_corpus(ascii_tails: bool = False, budget: Optional[InstrBudget] = None) -> None:
     """Valid PDUs per layer: encode with defaults where possible, else decode-guided
     random search (every successful decode yields a valid PDU).  Fixed seed."""
     DecodeError = STATE["DecodeError"]
@@ -202,9 +204,20 @@ def build_corpus(ascii_tails: bool = False) -> None:
                         tail = bytes(b & 0x7F for b in tail)
                     pdu = prefix + tail
                     try:
+                        if budget is not None:
+                            budget.arm(INSTR_LIMIT)
                         co.decode(pdu)
+                    except HangVerdict:
+                        # a decode call that does not terminate while building the corpus: remember it,
+                        # the first runs of the batch re-execute it as an ordinary (judged) check
+                        STATE.setdefault("hang_checks", []).append(
+                            [lname, ["C", pdu.hex(), None, [svc.short_name, co.short_name], "corpus"]])
+                        break
                     except Exception:  # noqa: BLE001
                         continue
+                    finally:
+                        if budget is not None:
+                            budget.disarm()
                     if pdu not in found:
                         found.append(pdu)
                 for pdu in found:
@@ -266,6 +279,10 @@ def gen(rs: int, index: int, tier: str) -> Dict[str, Any]:
     S = Streams(rs)
     r = S.rng("cfg")
     names = STATE["layer_names"]
+    hangs = STATE.get("hang_checks", [])
+    if index < len(hangs):
+        lname, chk = hangs[index]
+        return {"mode": "pdu", "layer": lname, "checks": [chk], "systematic": True}
     # systematic part: all strings up to length 3 over the reduced alphabet, layer by layer
     n_sys = len(names) * 8
     if index < n_sys:
